@@ -111,6 +111,28 @@ LayoutTok(i, tok) ==
     [] OTHER -> <<tok>>                    \* anything else stands for itself
 DateFormat(v, layout) == IF v.k # "time" THEN ErrV("not a time") ELSE S(Flatten3([j \in 1..Len(layout) |-> LayoutTok(v.n, layout[j])]))
 
+\* title: every letter that starts a word in upper case, every other letter in lower case; a word starts after anything
+\* that is not a letter, a digit or an underscore
+IsWordAtom(a) == UpAtom(a) # a \/ LoAtom(a) # a \/ a \in {"0", "1", "2", "3", "4", "5", "6", "7", "8", "9", "_", "CJK"}
+Title(s) == [i \in 1..Len(s) |-> IF i = 1 \/ ~IsWordAtom(s[i - 1]) THEN UpAtom(LoAtom(s[i])) ELSE LoAtom(s[i])]
+\* phone2numeric: the letters of a telephone keypad, either case; everything else stays
+PhoneDigit(a) == LET l == LoAtom(a) IN
+  CASE l \in {"a", "b", "c"} -> "2" [] l \in {"d", "e", "f"} -> "3" [] l \in {"g", "h", "i"} -> "4" [] l \in {"j", "k", "l"} -> "5"
+    [] l \in {"m", "n", "o"} -> "6" [] l \in {"p", "q", "r", "s"} -> "7" [] l \in {"t", "u", "v"} -> "8" [] l \in {"w", "x", "y", "z"} -> "9"
+    [] OTHER -> a
+\* linebreaks (pongo2's own reading): lines are joined by <br />, a blank line after a non-blank one closes the paragraph,
+\* the next line opens a new one; everything sits in <p>...</p>
+Blank(line) == \A i \in 1..Len(line) : IsWS(line[i])
+TagP == <<"<", "p", ">">>  TagPEnd == <<"<", "/", "p", ">">>  TagBr == <<"<", "b", "r", " ", "/", ">">>
+RECURSIVE LinebreaksFrom(_, _, _)
+LinebreaksFrom(lines, i, opened) ==
+  IF i > Len(lines) THEN (IF opened THEN TagPEnd ELSE <<>>)
+  ELSE LET start == IF opened THEN <<>> ELSE TagP IN
+       LET more == i < Len(lines) /\ ~Blank(lines[i]) IN
+       LET closes == more /\ Blank(lines[i + 1]) IN
+       start \o lines[i] \o (IF closes THEN TagPEnd ELSE IF more THEN TagBr ELSE <<>>) \o LinebreaksFrom(lines, i + 1, ~closes)
+Linebreaks(lines) == LinebreaksFrom(lines, 1, FALSE)
+
 \* FilterRef(f, v, a): the reference result of v|f:a  (a = Nil when no argument is written)
 FilterRef(f, v, a) ==
   CASE f = "slice" ->      \* a = pair value P(lo, hi), each an int value or Nil for an omitted bound
@@ -175,6 +197,9 @@ FilterRef(f, v, a) ==
     [] f = "default_if_none" -> IF v.k = "nil" THEN a ELSE v
     [] f = "integer" -> I(IF v.k = "fix" THEN (IF v.n < 0 THEN 0 - (AbsI(v.n) \div 1000) ELSE v.n \div 1000) ELSE IntOf(v))
     [] f = "safe" -> v
+    [] f = "title" -> IF v.k # "str" THEN S(<<>>) ELSE S(Title(v.s))
+    [] f = "phone2numeric" -> S([i \in 1..Len(StrOf(v)) |-> PhoneDigit(StrOf(v)[i])])
+    [] f = "linebreaks" -> IF v.k = "str" /\ v.s = <<>> THEN v ELSE S(Linebreaks(SplitOn(StrOf(v), "NL", <<>>, <<>>)))
     [] f = "floatformat" -> FloatFormat(v, a)
     [] f = "float" -> Fix(ThousandthsOf(v))
     [] OTHER -> ErrV("no reference")
